@@ -157,6 +157,15 @@ class PathCtx:
         # feasibility: sound, and keeps branching cheap); obligations carry everything
         if not has_quantifier(c):
             self.solver.add(c)
+        elif z3.is_and(c):
+            # keep the quantifier-free conjuncts of a conjunction
+            todo = list(c.children())
+            while todo:
+                x = todo.pop()
+                if z3.is_and(x):
+                    todo.extend(x.children())
+                elif not has_quantifier(x):
+                    self.solver.add(x)
 
     def feasible(self, c):
         self.stats["feas_checks"] += 1
